@@ -1424,6 +1424,155 @@ Proof.
     exists l, l. repeat split; auto.
 Qed.
 
+(* ---------- GC: Forget, then bare removals of blob files ---------- *)
+(* Go's sweep is os.Remove, not Store.delete.  Whenever the swept blob is not held by the
+   tag resolver, the model's plain Delete IS that bare removal: no index write, memory
+   unchanged. *)
+Lemma delete_unheld_is_unlink s x :
+  Inv s -> ~ In x (sdigs s) ->
+  steps s (Delete x) = (if exists_file (sfs s) (FBlob x) then [Unlink (FBlob x)] else []) /\
+  stags (runop s (Delete x)) = stags s /\ sdigs (runop s (Delete x)) = sdigs s.
+Proof.
+  intros I Hx.
+  assert (Ht : forall r, ~ In (r, x) (stags s)).
+  { intros r Hin. apply Hx. exact (inv_tagdig s I r x Hin). }
+  assert (E1 : existsb (fun e => snd e =? x) (stags s) = false).
+  { destruct (existsb (fun e => snd e =? x) (stags s)) eqn:E; [|reflexivity].
+    apply existsb_exists in E as ([r n] & Hin & E). cbn in E. apply N.eqb_eq in E. subst n.
+    exfalso. exact (Ht r Hin). }
+  assert (E2 : memN x (sdigs s) = false).
+  { unfold memN. destruct (existsb (N.eqb x) (sdigs s)) eqn:E; [|reflexivity].
+    apply existsb_exists in E as (y & Hin & E). apply N.eqb_eq in E. subst y. contradiction. }
+  split; [|split].
+  - unfold op_steps. cbn [op_mem]. rewrite E1, E2. reflexivity.
+  - unfold run_op. cbn [op_mem stags]. apply filter_all_true. intros [r n] Hin. cbn.
+    apply negb_true_iff, N.eqb_neq. intros ->. exact (Ht r Hin).
+  - unfold run_op. cbn [op_mem sdigs]. apply filter_all_true. intros y Hin.
+    apply negb_true_iff, N.eqb_neq. intros ->. contradiction.
+Qed.
+
+Definition gc_ops (live xs : list N) : list op := Forget live :: map Delete xs.
+
+(* the state after Forget and any number of the sweep's removals: same tags, and no
+   swept blob is held by digest *)
+Lemma gc_prefix_mem s live xs :
+  Inv s ->
+  (forall x, In x xs -> ~ In x live /\ forall r, ~ In (r, x) (stags s)) ->
+  forall pre, (forall o, In o pre -> In o (map Delete xs)) ->
+  let sj := run H shuffle false false true pre (runop s (Forget live)) in
+  Inv sj /\ stags sj = stags s /\ forall x, In x xs -> ~ In x (sdigs sj).
+Proof.
+  intros I Hxs.
+  set (s1 := runop s (Forget live)).
+  assert (I1 : Inv s1) by (now apply op_safe).
+  assert (T1 : stags s1 = stags s) by (unfold s1, run_op; reflexivity).
+  assert (D1 : forall x, In x xs -> ~ In x (sdigs s1)).
+  { intros x Hin Hd. unfold s1, run_op in Hd. cbn [op_mem sdigs] in Hd.
+    apply filter_In in Hd as [_ Hk]. destruct (Hxs x Hin) as [Hl Ht].
+    apply orb_true_iff in Hk as [Hk|Hk].
+    - apply Hl. unfold memN in Hk. apply existsb_exists in Hk as (y & Hy & E).
+      apply N.eqb_eq in E. now subst y.
+    - apply existsb_exists in Hk as ([r n] & Hr & E). cbn in E. apply N.eqb_eq in E. subst n.
+      exact (Ht r Hr). }
+  intro pre. induction pre as [|o pre IH] using rev_ind; intros Hpre.
+  - split; [exact I1|split; [exact T1|exact D1]].
+  - cbn zeta. unfold run. rewrite fold_left_app. cbn [fold_left].
+    fold (run H shuffle false false true pre s1).
+    destruct IH as (Ij & Tj & Dj).
+    { intros o' Hin. apply Hpre. apply in_or_app. now left. }
+    set (sj := run H shuffle false false true pre s1) in *.
+    assert (Ho : In o (map Delete xs)) by (apply Hpre; apply in_or_app; right; now left).
+    apply in_map_iff in Ho as (x & <- & Hx).
+    destruct (delete_unheld_is_unlink sj x Ij (Dj x Hx)) as (_ & Et & Ed).
+    split; [now apply op_safe|]. split; [now rewrite Et|]. intros y Hy. rewrite Ed. now apply Dj.
+Qed.
+
+Theorem gc_crash_safe (h : list hop) live xs k :
+  let s := runc H shuffle false false true h init in
+  (forall l, read_index (sfs s) = Some l ->
+     forall x, In x xs -> ~ In x live /\ forall r, ~ tag_of l r x) ->
+  let os := gc_ops live xs in
+  let fsk := crash_seq H shuffle false false true s os k in
+  (* every removal of the sweep is a bare unlink *)
+  (forall pre x post, map Delete xs = pre ++ Delete x :: post ->
+     let sj := run H shuffle false false true pre (runop s (Forget live)) in
+     steps sj (Delete x) = if exists_file (sfs sj) (FBlob x) then [Unlink (FBlob x)] else []) /\
+  (* the tag mapping never changes *)
+  same_tags fsk (sfs s) /\
+  (* index.json is the one before the call or the one Forget saved *)
+  (read_index fsk = read_index (sfs s) \/ read_index fsk = read_index (sfs (runop s (Forget live)))).
+Proof.
+  intros s Hd os fsk.
+  assert (I : Inv s) by (apply inv_runc; apply inv_init).
+  assert (Hxs : forall x, In x xs -> ~ In x live /\ forall r, ~ In (r, x) (stags s)).
+  { intros x Hin. destruct (inv_named s I) as (l & Hl & Hn). destruct (Hd l Hl x Hin) as [A B].
+    split; [exact A|]. intros r Ht. apply (B r). unfold tag_of. now apply Hn. }
+  pose proof (gc_prefix_mem s live xs I Hxs) as G.
+  set (s1 := runop s (Forget live)) in *.
+  assert (T1 : stags s1 = stags s) by (unfold s1, run_op; reflexivity).
+  split; [|split].
+  - intros pre x post Eq sj.
+    destruct (G pre) as (Ij & _ & Dj).
+    { intros o Hin. rewrite Eq. apply in_or_app. now left. }
+    apply delete_unheld_is_unlink; [exact Ij|]. apply Dj.
+    assert (Hin : In (Delete x) (map Delete xs)) by (rewrite Eq; apply in_or_app; right; now left).
+    apply in_map_iff in Hin as (y & Ey & Hy). injection Ey as ->. exact Hy.
+  - pose proof (crash_safe_composite h os k) as C. cbn zeta in C. fold s in C. fold fsk in C.
+    destruct C as [(pre & o & post & Eq & R)|[Ef Gd]].
+    + cbn zeta in R. apply rec_same_tags in R.
+      destruct pre as [|p0 pre].
+      * cbn [app] in Eq. unfold os, gc_ops in Eq. injection Eq as <- _. cbn [run fold_left] in R. fold s1 in R.
+        destruct R as [R|R]; [exact R|].
+        apply (same_tags_trans _ _ _ R). apply same_tags_of_inv; [now apply op_safe|exact I|].
+        intros r n. now rewrite T1.
+      * cbn [app] in Eq. unfold os, gc_ops in Eq. injection Eq as <- Eq.
+        cbn [run fold_left] in R. fold s1 in R.
+        destruct (G pre) as (Ij & Tj & Dj).
+        { intros o' Hin. rewrite Eq. apply in_or_app. now left. }
+        set (sj := run H shuffle false false true pre s1) in *.
+        assert (Ho : In o (map Delete xs)) by (rewrite Eq; apply in_or_app; right; now left).
+        apply in_map_iff in Ho as (x & <- & Hx).
+        destruct (delete_unheld_is_unlink sj x Ij (Dj x Hx)) as (_ & Et & _).
+        destruct R as [R|R]; apply (same_tags_trans _ _ _ R); apply same_tags_of_inv;
+          try exact I; try exact Ij; try (now apply op_safe); intros r n.
+        -- change (In (r, n) (stags sj) <-> In (r, n) (stags s)). now rewrite Tj.
+        -- change (In (r, n) (stags (runop sj (Delete x))) <-> In (r, n) (stags s)). now rewrite Et, Tj.
+    + rewrite Ef. apply same_tags_of_inv; [apply inv_run; exact I|exact I|].
+      destruct (G (map Delete xs)) as (_ & Tn & _); [auto|].
+      intros r n.
+      change (In (r, n) (stags (run H shuffle false false true (map Delete xs) s1)) <-> In (r, n) (stags s)).
+      now rewrite Tn.
+  - (* index.json changes exactly once, in Forget *)
+    pose proof (crash_safe_composite h os k) as C. cbn zeta in C. fold s in C. fold fsk in C.
+    assert (RI : forall pre, (forall o, In o pre -> In o (map Delete xs)) ->
+                 read_index (sfs (run H shuffle false false true pre s1)) = read_index (sfs s1)).
+    { intro pre. induction pre as [|o pre IH] using rev_ind; intro Hpre; [reflexivity|].
+      unfold run. rewrite fold_left_app. cbn [fold_left]. fold (run H shuffle false false true pre s1).
+      destruct (G pre) as (Ij & _ & Dj); [intros o' Hin; apply Hpre; apply in_or_app; now left|].
+      set (sj := run H shuffle false false true pre s1) in *.
+      assert (Ho : In o (map Delete xs)) by (apply Hpre; apply in_or_app; right; now left).
+      apply in_map_iff in Ho as (x & <- & Hx).
+      destruct (delete_unheld_is_unlink sj x Ij (Dj x Hx)) as (Es & _ & _).
+      rewrite sfs_run_op, Es. rewrite <- IH by (intros o' Hin; apply Hpre; apply in_or_app; now left).
+      destruct (exists_file (sfs sj) (FBlob x)); [|reflexivity].
+      unfold read_index, apply. cbn [fold_left apply1 files]. now rewrite upd_other by discriminate. }
+    destruct C as [(pre & o & post & Eq & R)|[Ef _]].
+    + cbn zeta in R. destruct R as (_ & _ & _ & R & _).
+      destruct pre as [|p0 pre].
+      * cbn [app] in Eq. unfold os, gc_ops in Eq. injection Eq as <- _. cbn [run fold_left] in R. exact R.
+      * right. cbn [app] in Eq. unfold os, gc_ops in Eq. injection Eq as <- Eq.
+        cbn [run fold_left] in R. fold s1 in R.
+        assert (Hpre : forall o', In o' pre -> In o' (map Delete xs)).
+        { intros o' Hin. rewrite Eq. apply in_or_app. now left. }
+        assert (Hpo : forall o', In o' (pre ++ [o]) -> In o' (map Delete xs)).
+        { intros o' Hin. rewrite Eq. apply in_app_or in Hin as [Hin|[<-|[]]]; apply in_or_app; [now left|right; now left]. }
+        pose proof (RI pre Hpre) as E0. pose proof (RI (pre ++ [o]) Hpo) as E1.
+        unfold run in E1. rewrite fold_left_app in E1. cbn [fold_left] in E1.
+        fold (run H shuffle false false true pre s1) in E1.
+        destruct R as [R|R]; rewrite R; [exact E0|exact E1].
+    + right. rewrite Ef. unfold os, gc_ops. cbn [run fold_left]. fold s1. apply RI. auto.
+Qed.
+
 End Crash.
 
 (* ---------- the code before the repair: index.json written in place ---------- *)
@@ -1591,4 +1740,23 @@ Proof.
   vm_compute in Hl. injection Hl as <-.
   specialize (He (2, Some 5) (or_introl eq_refl)). apply He. vm_compute. reflexivity.
 Qed.
+
+Theorem gc_crash_safe_src :
+  forall (H : list N -> N) (shuffle : nat -> list entry -> list entry),
+    (forall c l e, In e (shuffle c l) <-> In e l) ->
+    forall (h : list hop) (live xs : list N) (k : nat),
+      let s := runc H shuffle src_inplace src_unlink_first true h init in
+      (forall l, read_index (sfs s) = Some l ->
+         forall x, In x xs -> ~ In x live /\ forall r, ~ tag_of l r x) ->
+      let os := gc_ops live xs in
+      let fsk := crash_seq H shuffle src_inplace src_unlink_first true s os k in
+      (forall pre x post, map Delete xs = pre ++ Delete x :: post ->
+         let sj := run H shuffle src_inplace src_unlink_first true pre
+                     (run_op H shuffle src_inplace src_unlink_first true s (Forget live)) in
+         op_steps H shuffle src_inplace src_unlink_first true sj (Delete x)
+           = if exists_file (sfs sj) (FBlob x) then [Unlink (FBlob x)] else []) /\
+      same_tags fsk (sfs s) /\
+      (read_index fsk = read_index (sfs s) \/
+       read_index fsk = read_index (sfs (run_op H shuffle src_inplace src_unlink_first true s (Forget live)))).
+Proof. rewrite src_inplace_false, src_unlink_first_false. exact gc_crash_safe. Qed.
 
